@@ -26,7 +26,11 @@ for p in props:
         mod = importlib.import_module(f"xsa.rules.{p.lower()}")
         rep = Report(p, "quick")
         with contextlib.redirect_stdout(buf):
-            expl = mod.check(idx, rep, "quick")
+            try:
+                expl = mod.check(idx, rep, "quick")
+            except AnalysisError as e:  # as in xsa.check: a rule group that stops does not erase earlier findings
+                rep.analysis_errors.append(str(e))
+                expl = "rule evaluation stopped early"
             rc = rep.finish(expl, idx)
     except AnalysisError as e:
         buf.write(f"ANALYSIS-ERROR property={p}: {e}\n")
